@@ -888,10 +888,14 @@ public:
 	    \param sz size of string
 	    \param tag tag to extract to
 	    \param val value to extract to
-	    \return number of bytes consumed */
-	static unsigned extract_element(const char *from, const unsigned sz, char *tag, char *val)
+	    \param tag_sz size of the tag buffer
+	    \param val_sz size of the value buffer
+	    \return number of bytes consumed, 0 if no element could be extracted or it does not fit the buffers */
+	static unsigned extract_element(const char *from, const unsigned sz, char *tag, char *val,
+		const unsigned tag_sz=MAX_MSGTYPE_FIELD_LEN, const unsigned val_sz=FIX8_MAX_FLD_LENGTH)
 	{
 		enum { get_tag, get_value } state(get_tag);
+		const char *const tag_last(tag + tag_sz - 1), *const val_last(val + val_sz - 1); // keep room for the terminator
 
 		for (unsigned ii(0); ii < sz; ++ii)
 		{
@@ -905,7 +909,11 @@ public:
 					state = get_value;
 				}
 				else
+				{
+					if (tag == tag_last)	// tag does not fit the buffer
+						return *val = *tag = 0;
 					*tag++ = from[ii];
+				}
 				break;
 			case get_value:
 				if (from[ii] == default_field_separator)
@@ -913,6 +921,8 @@ public:
 					*val = *tag = 0;
 					return ++ii;
 				}
+				if (val == val_last)	// value does not fit the buffer
+					return *val = *tag = 0;
 				*val++ = from[ii];
 				break;
 			}
@@ -927,13 +937,17 @@ public:
 	    \param val_sz size of value to be extracted, not including field separator
 	    \param val value to extract to
 	    \return number of bytes consumed */
-	static unsigned extract_element_fixed_width(const char *from, const unsigned sz, const unsigned val_sz, char *tag, char *val)
+	static unsigned extract_element_fixed_width(const char *from, const unsigned sz, const unsigned val_sz, char *tag, char *val,
+		const unsigned tag_sz=MAX_MSGTYPE_FIELD_LEN)
 	{
 		*val = *tag = 0;
+		const char *const tag_last(tag + tag_sz - 1);
 		for (unsigned ii(0); ii < sz; ++ii)
 		{
 			if(isdigit(from[ii]))
 			{
+				if (tag == tag_last)	// tag does not fit the buffer
+					break;
 				*tag++ = from[ii];
 				continue;
 			}
